@@ -1,5 +1,9 @@
 mod c13;
 mod c15;
+mod c16;
+mod c17;
+mod c19;
+mod envs;
 mod coqfmt;
 mod reflect;
 mod rng;
@@ -23,6 +27,10 @@ fn main() {
         "reflect" => reflect::run(&out),
         "c13" => c13::run(&out, seed, thorough),
         "c15" => c15::run(&out, seed, thorough),
+        "c16" => c16::run(&out, seed, thorough),
+        "c17" => c17::run(&out, seed, thorough),
+        "c19" => c19::run(&out, seed, thorough),
+        "envprobe" => c19::probe(&args),
         "simcheck" | "simcheck-worker" | "simprobe" | "simreplay" => simcheck::main(&cmd, &args, &out, seed, thorough),
         _ => { eprintln!("usage: hx <reflect|c13|simcheck|simprobe|simreplay|...> --out DIR [--seed N] [--tier quick|thorough]"); std::process::exit(2); }
     };
